@@ -8,15 +8,17 @@ FUNCTIONS = ["Header::read, PacketHeader::read, CompressedVectorSectionHeader::r
 ASSUME = [
     "MIR is dumped with overflow checks ON: every arithmetic-overflow assert terminator, slice bound and unwrap on the explored paths is a panic path and must be infeasible",
     "untrusted inputs are symbolic: all header bytes, all descriptor values (offset, length), all packet bytes, all device contents and per-page validity; prototype shapes concrete",
+    "point iterators: construction (QueueReader / raw / simple ::new) with ANY descriptor over ANY device, one advance over ANY packet bytes from any cursor, and delivery of buffered points "
+    "(two next() calls from a state with buffered points) are each panic-free; a whole next() is a loop of these steps, so the induction over its iterations is a reasoning step",
     "roxmltree::Document::parse, the from_node functions and String::from_utf8 are outside (text parsing)",
 ]
 
 
 def run(ctx):
-    from mirsym import spec_blob, spec_packet, spec_page, spec_reader
+    from mirsym import spec_blob, spec_iter, spec_packet, spec_page, spec_reader
     tier = ctx["tier"]
     scen = (spec_packet.scenarios(tier) + spec_blob.scenarios(tier)[2:3] + spec_reader.scenarios(tier)[3:] + spec_page.reader_scenarios() + spec_page.reader_misc_scenarios()
-            + spec_reader.scenarios(tier)[:1])
+            + spec_reader.scenarios(tier)[:1] + spec_iter.new_scenarios(tier) + spec_iter.batch_scenarios("quick"))
     obls, samples = mlane.run_scenarios("C08", "O08", scen, ctx, "any bytes / descriptors; devices <= 8 pages; one packet per run")
     specs = kp.hdr_read_specs(tier) + kp.reader_misc_specs(tier)
     obls += kp.run_k("C08", "c08", kp.merge(kp.F_HDR, kp.F_PR), specs, ctx)
